@@ -46,7 +46,16 @@ def cases(tier, seed):
             opts["search_n_try"] = int(rng.choice([0, 1]))
         if rng.random() < 0.2:
             opts["search_grid_number"] = int(rng.choice([4, 6, 8]))  # coarser search mesh: gridisation moves points further
-        spec = gen.make_spec(rng, D=int(rng.choice([1, 2, 3, 4], p=[0.25, 0.4, 0.25, 0.1])), geom=geom, x0mode=x0mode, land=land,
+        D = int(rng.choice([1, 2, 3, 4], p=[0.25, 0.4, 0.25, 0.1]))
+        if i % 10 == 7:
+            # one variable + a constraint removing most of the initial design + a coarse final mesh: poll directions are scaled
+            # by a GP refitted on two training points (degenerate empirical priors -> non-finite scale -> non-finite candidates)
+            D, x0mode, mode = 1, "in", str(rng.choice(["det", "det", "auto", "he"]))
+            cons = str(rng.choice(["annulus", "ball", "halfspace"], p=[0.5, 0.25, 0.25]))
+            geom = str(rng.choice(["lin", "offcentre", "tight", "wide"]))
+            land = str(rng.choice(["sphere", "quad", "l1"]))
+            opts["tol_mesh"] = float(rng.choice([0.25, 0.1]))
+        spec = gen.make_spec(rng, D=D, geom=geom, x0mode=x0mode, land=land,
                              where=where, mode=mode, cons=cons, options=opts, max_fun_evals=int(rng.choice([30, 50, 80, 100])))
         out.append({"spec": spec, "second_run": bool(rng.random() < 0.2)})
     return out
